@@ -65,6 +65,8 @@ class Lin:
             if ty in ("usize", "u64", "u32", "u128"):
                 return self.of_value(t[1])
             return atom(t)
+        if k == "into" and len(t) > 2 and t[2] in ("usize", "u64", "u32", "u128", "u16"):
+            return self.of_value(t[1])       # lossless widening (From<u8/u16/u32/bool>)
         if k == "len":
             return self.len_of(t[1])
         if k == "call" and t[1].endswith("::len") and len(t[2]) == 1:
